@@ -1,0 +1,10 @@
+//go:build verif
+
+// Contracts for /verif/govc (comment-only; see /verif/DESIGN.md section 3.2).
+package nodestate
+
+//@ define usageOf(used int, total int) = total == 0 ? 0.0 : (used > total ? 100.0 : 100.0 * real(used) / real(total))
+
+//@ func (app/node_state.DiskState).Usage
+//@   ensures C18.usage [C18]: result == usageOf(ds.Used, ds.Total)
+//@   ensures C18.usage_range [C18]: 0.0 <= result && result <= 100.0
